@@ -7,6 +7,8 @@ package h_prov
 import (
 	"context"
 	"fmt"
+	"os"
+	"path/filepath"
 	"sort"
 	"strings"
 	"testing"
@@ -442,10 +444,54 @@ type confMut struct {
 	conf map[string]any
 }
 
+// propsPath is a real file: the property resolver reads the operating system's file system. It holds
+// proper lines, an empty line, a line without '=' and a line with an empty key.
+var propsPath string
+
+func ensureProps() {
+	if propsPath != "" {
+		return
+	}
+	wd, _ := os.Getwd()
+	propsPath = filepath.Join(wd, fmt.Sprintf("zv_c13_%d.properties", os.Getpid()))
+	_ = os.WriteFile(propsPath, []byte("k=/ammo\nn=2\n\nbroken\nb=true\n=nokey\n"), 0o644)
+}
+
 func configMutants() []confMut {
+	ensureProps()
+	out := configMutants0()
+	for i := range out {
+		out[i].conf = substProps(out[i].conf).(map[string]any)
+	}
+	return out
+}
+
+// the mutant names keep the short spelling /props, the configurations carry the real path
+func substProps(v any) any {
+	switch x := v.(type) {
+	case string:
+		return strings.ReplaceAll(x, "/props", propsPath)
+	case map[string]any:
+		m := map[string]any{}
+		for k, e := range x {
+			m[k] = substProps(e)
+		}
+		return m
+	case []any:
+		l := make([]any, len(x))
+		for i, e := range x {
+			l[i] = substProps(e)
+		}
+		return l
+	}
+	return v
+}
+
+func configMutants0() []confMut {
 	var out []confMut
 	place := []string{"${property:/props}", "${property:}", "${property:#}", "${property:/props#}", "${property:/nosuch#k}", "${property:/props#nosuch}", "${env:}", "${env:ZZ_UNSET_VAR}",
-		"${:x}", "${}", "${", "${nosuch:x}", "${property:/props#k", "$${property:/props}", "${property:/props#k}${property:/props}", "${PROPERTY:/props}", "${ env: ZZ }"}
+		"${:x}", "${}", "${", "${nosuch:x}", "${property:/props#k", "$${property:/props}", "${property:/props#k}${property:/props}", "${PROPERTY:/props}", "${ env: ZZ }",
+		"${property:/props#k}", "${property:/props#broken}", "${property:/props# k}", "${property:/props#n}", "${property:/props#=nokey}", "${property: /props#k}"}
 	for _, pl := range place {
 		out = append(out, confMut{"file=" + pl, map[string]any{"type": "uri", "file": pl}})
 		out = append(out, confMut{"limit=" + pl, map[string]any{"type": "uri", "file": "/ammo", "limit": pl}})
